@@ -7,6 +7,8 @@
 //	fatal error / hang             -> the supervisor (worker death / stall of the journalled case)
 //	goroutine leak                 -> conservation of lexer start/exit events per call,
 //	                                  cross-checked with runtime.Stack(all) per case
+//	runaway recursion              -> "resolve" events: more than 4000 reference resolutions in
+//	                                  one call abort it from inside the hook (before the stack overflows)
 //	unbounded allocation           -> "grow" events: a list longer than the bound the
 //	                                  property allows aborts the call from inside the hook
 //	                                  (nothing is ever materialised)
@@ -47,6 +49,7 @@ func (check) Assumptions() []string {
 		"slot bound of a call = max(MaxIdx+1, number of elements (for loaders: bytes) the caller's own data contains); MaxIdx is 1024 unless the case passes ucfg.MaxIdx",
 		"a panic whose innermost non-stdlib frame is in yaml.v2 / hjson-go / encoding/json is reported as decoder-panic:<pkg>, not as a go-ucfg panic",
 		"not generated: cyclic Go values passed to Merge/NewFrom or pre-filled into targets, a Config made its own ancestor through SetChild, user callbacks that panic, nesting deeper than 10000 (the limit encoding/json and yaml.v2 enforce themselves)",
+		"step budget: 4000 reference resolutions per call; the configs read under VarExp have at most a few dozen settings (deep documents hold at most one reference per 1000 levels)",
 		"the lexer emits its exit event before it closes its channel and parseSplice drains until close, so start==exit after every call is deterministic",
 	}
 }
@@ -74,16 +77,16 @@ func plan(tier string) []segment {
 	nSplice3 := countStrings(len(spliceAlpha), 3)
 	return []segment{
 		{"a-parse-exhaustive", pick(chunks(nParse3, parseChunk), chunks(nParseAll, parseChunk)), runParseExhaustive},
-		{"a-parse-sampled", pick(6, 0), runParseSampled},
+		{"a-parse-sampled", pick(8, 0), runParseSampled},
 		{"a-splice-exhaustive", pick(chunks(nSplice3, spliceChunk), chunks(nSpliceAll, spliceChunk)), runSpliceExhaustive},
-		{"a-splice-sampled", pick(10, 0), runSpliceSampled},
-		{"b-bytes", pick(72, 12000), runBytes},
+		{"a-splice-sampled", pick(16, 0), runSpliceSampled},
+		{"b-bytes", pick(150, 30000), runBytes},
 		{"b-special", len(specialDocs()), runSpecialDoc},
-		{"c-names-sampled", pick(260, 0), runNamesSampled},
+		{"c-names-sampled", pick(400, 0), runNamesSampled},
 		{"c-names-all", pick(0, nameUnits()), runNamesAll},
 		{"d-targets-table", chunks(targetTableCalls(), targetChunk), runTargetsTable},
 		{"d-targets-recursive", 4, runTargetsRecursive},
-		{"d-targets-random", pick(120, 20000), runTargetsRandom},
+		{"d-targets-random", pick(300, 50000), runTargetsRandom},
 	}
 }
 
@@ -130,12 +133,21 @@ const defaultMaxIdx = 1024
 // allocates anything.
 type growAbort struct{ oldLen, newLen int }
 
+// budgetAbort is thrown from inside the resolve hook: one call performed more
+// reference resolutions than any terminating read of the small configs used
+// here needs. The call is abandoned before the recursion overflows the stack
+// (about 40000 nested levels fit into the workers' 64 MiB).
+type budgetAbort struct{}
+
+const stepBudget = 4000
+
 type status int
 
 const (
 	stOK status = iota
 	stPanic
 	stGrew
+	stBudget
 )
 
 type mon struct {
@@ -144,6 +156,8 @@ type mon struct {
 
 	starts, exits int64 // lexer events (emitted on the lexer goroutine)
 	grows         int64
+	steps         int // reference resolutions of the call in flight
+	maxSteps      int
 	maxGrow       int
 	bound         int // slot bound of the call in flight
 
@@ -174,6 +188,12 @@ func newMon(res *harness.R, verbose bool) *mon {
 			} else if site == "exit" {
 				atomic.AddInt64(&m.exits, 1)
 			}
+		case "resolve":
+			// always on the goroutine of the call in flight
+			m.steps++
+			if m.steps > stepBudget {
+				panic(budgetAbort{})
+			}
 		case "grow":
 			// always on the goroutine of the call in flight
 			m.grows++
@@ -193,6 +213,7 @@ func (m *mon) do(c call, f func()) (st status) {
 		c.bound = defaultMaxIdx + 1
 	}
 	m.bound = c.bound
+	m.steps = 0
 	s0, e0 := atomic.LoadInt64(&m.starts), atomic.LoadInt64(&m.exits)
 	m.res.Eval(1)
 	func() {
@@ -213,6 +234,18 @@ func (m *mon) do(c call, f func()) (st status) {
 					c.entry, ga.newLen, ga.oldLen, c.bound, c.desc())
 				return
 			}
+			pre := c.class
+			if pre != "" {
+				pre += ":"
+			}
+			if _, ok := rec.(budgetAbort); ok {
+				st = stBudget
+				m.res.Ev("step_budget_aborts", 1)
+				m.res.Violate(pre+"step-budget-exceeded:"+c.entry,
+					"%s performed more than %d reference resolutions in one call (runaway recursion; left alone it ends in a stack overflow or never); the monitor aborted the call; input: %s",
+					c.entry, stepBudget, c.desc())
+				return
+			}
 			st = stPanic
 			owner, fn, trace := classifyPanic()
 			msg := fmt.Sprint(rec)
@@ -220,10 +253,6 @@ func (m *mon) do(c call, f func()) (st status) {
 				msg = msg[:300] + "..."
 			}
 			m.res.Ev("panics", 1)
-			pre := c.class
-			if pre != "" {
-				pre += ":"
-			}
 			switch owner {
 			case "ucfg":
 				if c.class != "" && strings.Contains(msg, "nil pointer dereference") {
@@ -242,8 +271,11 @@ func (m *mon) do(c call, f func()) (st status) {
 		}()
 		f()
 	}()
+	if m.steps > m.maxSteps {
+		m.maxSteps = m.steps
+	}
 	s1, e1 := atomic.LoadInt64(&m.starts), atomic.LoadInt64(&m.exits)
-	if s1-s0 != e1-e0 {
+	if s1-s0 > e1-e0 {
 		m.res.Ev("lexer_conservation_failures", 1)
 		m.res.Violate("goroutine-leak:lexer", "%s returned while %d lexer goroutine(s) started by it had not finished (started %d, finished %d); input: %s",
 			c.entry, (s1-s0)-(e1-e0), s1-s0, e1-e0, c.desc())
@@ -260,6 +292,7 @@ func (m *mon) finish() {
 	m.res.Ev("lexer_exits", atomic.LoadInt64(&m.exits))
 	m.res.Ev("grow_events", m.grows)
 	m.res.SetAdd("max_list_growth_log2", fmt.Sprint(log2(m.maxGrow)))
+	m.res.SetAdd("max_resolutions_per_call_log2", fmt.Sprint(log2(m.maxSteps)))
 	// A lexer goroutine that has emitted its exit event may still be winding
 	// down: give stragglers time (only a goroutine that stays is a leak).
 	for try := 0; ; try++ {
